@@ -81,6 +81,12 @@ def build_tree(w, sc):
         inside_dir(root, 'c')
         w.put(base + '/ok.lua', b'inside_g_ok=1\n')
         w.put(base + '/sub/ok2.lua', b'inside_g_ok2=1\n')
+    elif layout == 'cwd-carts':
+        # a `pico-8/carts` tree below the working directory that is NOT the
+        # user's carts folder (HOME is elsewhere)
+        base = 'work/pico-8/carts/game'
+        root = base
+        inside_dir(base, 'w')
     elif layout == 'tilde-dir':
         # a directory whose name is literally "~" (cwd is its parent, the
         # cart is named "~/cart.p8" on the command line)
@@ -205,7 +211,8 @@ def _perturb(rng, path):
 def gen_c12(rng, tier, index):
     mode = rng.choice(['include', 'include', 'require', 'require'])
     layout = rng.choice(['proj', 'proj', 'carts-linux', 'carts-mac',
-                         'carts-win', 'carts-old', 'tilde-dir']) \
+                         'carts-win', 'carts-old', 'tilde-dir',
+                         'cwd-carts']) \
         if mode == 'include' else 'proj'
     sc = {'engine': NAME, 'mode': mode, 'layout': layout,
           'cwd': rng.choice(['root', 'base', 'parent']),
@@ -213,6 +220,8 @@ def gen_c12(rng, tier, index):
           'home': rng.choice(['home', 'home', 'unset', 'elsewhere'])}
     if layout == 'tilde-dir' and rng.random() < 0.7:
         sc.update(cwd='parent', argstyle='rel', home='home')
+    if layout == 'cwd-carts':
+        sc.update(cwd='work', home=rng.choice(['home', 'elsewhere']))
     # choose a target to aim at: a canary (mostly) or an inside file
     sc['aim'] = rng.random()
     sc['aim_index'] = rng.randrange(10**6)
@@ -225,6 +234,8 @@ def gen_c12(rng, tier, index):
     # an unrelated cart (in a cousin directory, same relative name) is loaded
     # first in the same process, from its own directory
     sc['warmup'] = rng.choice([False] * 7 + [True, True, 'failing'])
+    if layout in CARTS_DIRS and sc['home'] != 'home' and rng.random() < 0.6:
+        sc['warmup'] = 'carts-home-first'
     sc['perturb_seed'] = rng.randrange(10**9)
     if mode == 'include':
         sc['route'] = rng.choice(['from_file', 'from_file', 'from_file',
@@ -455,7 +466,7 @@ def execute(sc):
             main_abs = w.p(base + '/main.lua')
             eff_lp = w.subst(_effective_lua_path(sc))
             roots = require_roots(main_abs, eff_lp)
-        cwd_rel = {'root': '', 'base': base,
+        cwd_rel = {'root': '', 'base': base, 'work': 'work',
                    'parent': os.path.dirname(base)}[sc['cwd']]
         os.chdir(w.p(cwd_rel))
         arg = main_abs if sc['argstyle'] == 'abs' else os.path.relpath(
@@ -468,7 +479,26 @@ def execute(sc):
         if sc.get('warmup'):
             cousin = os.path.dirname(info['root']) + '/cousin'
             try:
-                if sc['mode'] == 'include' and sc.get('warmup') == 'failing':
+                if sc['mode'] == 'include' and \
+                        sc.get('warmup') == 'carts-home-first':
+                    # earlier in this process HOME pointed at home/ and a cart
+                    # in its carts folder was loaded; HOME is different now
+                    saved_home = os.environ.get('HOME')
+                    os.environ['HOME'] = w.p('home')
+                    for cd in CARTS_DIRS.values():
+                        w.put(cd + '/warm.p8', _p8_with_code(
+                            b'warm_marker=1\n#include ok.lua\n'))
+                        w.put(cd + '/ok.lua', b'warm_ok=1\n')
+                        try:
+                            pfile.from_file(w.p(cd + '/warm.p8'))
+                        except BaseException:
+                            pass
+                    if saved_home is None:
+                        os.environ.pop('HOME', None)
+                    else:
+                        os.environ['HOME'] = saved_home
+                    core.bump(res['probes'], 'warmup-under-another-home')
+                elif sc['mode'] == 'include' and sc.get('warmup') == 'failing':
                     # a cart one level up fails to load half-way through
                     par = os.path.dirname(info['base'])
                     w.put(par + '/bad.p8', _p8_with_code(
@@ -684,6 +714,7 @@ def gen_c20(rng, tier, index):
                 tg['nested'] = rng.choice(['missing', 'exists', 'canary'])
         else:
             ntabs = rng.choice([1, 1, 2, 3, 4, 5])
+            tg['version'] = rng.choice([33, 33, 33, 8, 5, 4, 9, 16, 41, 1])
             tg['tabs'] = [mk_lines('t%dtab%d' % (t, k),
                                    rng.choice([0, 1, 2, 3]))
                           for k in range(ntabs)]
@@ -714,7 +745,9 @@ def gen_c20(rng, tier, index):
           'cwd': rng.choice(['root', 'base', 'parent']),
           'argstyle': rng.choice(['abs', 'rel']),
           'route': rng.choice(['from_file', 'from_file', 'listlua',
-                               'build-out']),
+                               'build-out', 'listlua-2files']),
+          'gflags': rng.choice([[], [], [], ['--debug'], ['-q']]),
+          'debug_left_on': rng.random() < 0.1,
           'enoent': None}
     incs = [i for i, ln in enumerate(lines) if ln['t'] == 'inc']
     if incs and rng.random() < 0.2:
@@ -929,7 +962,8 @@ def _splice_round(w, sc, res, rno):
             if tg['kind'] == 'lua':
                 data = code
             else:
-                cart = refcodec.make_cart(version=33, code=code)
+                cart = refcodec.make_cart(version=tg.get('version', 33),
+                                          code=code)
                 data = refcodec.encode_any(rel, cart)
             if sc.get('enoent') != ti:
                 w.put(rel, data)
@@ -961,11 +995,46 @@ def _splice_round(w, sc, res, rno):
         exc = None
         rc = None
         got = None
+        if sc.get('debug_left_on') and rno == 0 and \
+                not sc['route'].startswith('listlua'):
+            # an earlier p8tool call in this process asked for --debug;
+            # picotool keeps that verbosity for the rest of the process
+            w.put('work/dbg.p8', _p8_with_code(b'dbg=1\n'))
+            try:
+                tool.main(['--debug', 'stats', w.p('work/dbg.p8')])
+            except BaseException:
+                pass
+            core.bump(res['probes'], 'debug-verbosity-left-on')
+            w.out.seek(0)
+            w.out.truncate(0)
+        # global flags only where the result does not come from stdout
+        # (-q mutes the listing, --debug may legitimately add messages to it)
+        gfl = [] if sc['route'].startswith('listlua') else list(
+            sc.get('gflags') or [])
         w.start_io_log()
         try:
             if sc['route'] == 'from_file':
                 g = pfile.from_file(arg)
                 got = b''.join(g.lua.to_lines())
+            elif sc['route'] == 'listlua-2files':
+                # a cart that loads fine comes first on the same command line
+                w.put('work/good.p8', _p8_with_code(b'good_marker=1\n'))
+                rc0 = tool.main(gfl + ['listlua', w.p('work/good.p8'), arg])
+                text = w.out.getvalue()
+                head = '=== %s ===\n' % arg
+                if head in text:
+                    got = text.split(head, 1)[1].split('\n=== ')[0].encode(
+                        'latin-1', 'replace')
+                    rc = 0
+                    if b'good_marker' in got:
+                        got = b'<<the other cart was listed in its place>>\n'
+                elif text.count('=== %s ===' % w.p('work/good.p8')) > 1:
+                    # the first cart was listed a second time in this one's
+                    # place
+                    got = b'<<the other cart was listed in its place>>\n'
+                    rc = 0
+                else:
+                    rc = 1          # this cart was not listed: it failed
             elif sc['route'] == 'build-out':
                 # the cart is the existing OUT of a build that only replaces
                 # another section: loading it expands its includes, and a
@@ -973,13 +1042,14 @@ def _splice_round(w, sc, res, rno):
                 w.put('work/gfxsrc.p8', refcodec.encode_p8(
                     refcodec.make_cart(code=b'gfxsrc=1\n')))
                 cart_before = w.snap(cart_rel)
-                rc = tool.main(['build', arg, '--gfx', w.p('work/gfxsrc.p8')])
+                rc = tool.main(gfl + ['build', arg, '--gfx',
+                                      w.p('work/gfxsrc.p8')])
                 if rc in (0, None):
                     got = refcodec.decode_p8(w.snap(cart_rel)[2])['code']
                 elif w.snap(cart_rel) != cart_before:
                     raise _BuildDamagedCart()
             else:
-                rc = tool.main(['listlua', arg])
+                rc = tool.main(gfl + ['listlua', arg])
                 got = w.out.getvalue().encode('latin-1', 'replace')
         except BaseException as e:
             exc = e
@@ -1026,7 +1096,9 @@ def _splice_round(w, sc, res, rno):
                     'rc=%r stderr=%s' % (rc, w.unsubst(w.err.getvalue()[-300:]))))
         else:
             # (1) I/O history
-            want_opens = [cart_rel] + expect_open + ['work/gfxsrc.p8']
+            want_opens = [cart_rel] + expect_open + ['work/gfxsrc.p8',
+                                                      'work/good.p8',
+                                                      'work/dbg.p8']
 
             def rp(rel):
                 # names are compared after resolving symbolic links (the
@@ -1054,7 +1126,7 @@ def _splice_round(w, sc, res, rno):
                         opens, sorted(set(want_opens))))
             else:
                 # (2) splice
-                if sc['route'] == 'listlua':
+                if sc['route'] in ('listlua', 'listlua-2files'):
                     got_lines = [x for x in got.decode('latin-1').split('\n')
                                  if x.strip() != '']
                 else:
